@@ -111,15 +111,18 @@ def havoc_modset(E: Engine, st: State, ms: dict, pre: State, allocates=False):
         old = E.h(st, key)
         if key[0] == "glob":
             st.heap[key] = fresh("hv_glob", old.sort())
+            st.note_write(key, None)
             continue
         if all(e[0] == "obj" for e in entries):
             new = old
             for e in entries:
                 new = z3.Store(new, e[1], fresh("hv", old.sort().range()))
+                st.note_write(key, e[1])
             st.heap[key] = new
             continue
         new = fresh("hv_" + str(key[0]), old.sort())
         st.heap[key] = new
+        st.note_write(key, None)
         if not any(e[0] == "all" for e in entries):
             r = fresh("r", ty.RefSort)
             st.assume(z3.ForAll([r], z3.Implies(not_in_modset(entries, r), z3.Select(new, r) == z3.Select(old, r)),
@@ -128,8 +131,20 @@ def havoc_modset(E: Engine, st: State, ms: dict, pre: State, allocates=False):
         olda = E.alloc(st)
         newa = fresh("hv_alloc", olda.sort())
         st.heap[("alloc",)] = newa
+        st.note_write(("alloc",), None)
         r = fresh("r", ty.RefSort)
         st.assume(z3.ForAll([r], z3.Implies(z3.Select(olda, r), z3.Select(newa, r)), patterns=[z3.Select(olda, r)]))
+
+
+def wf_value(E: Engine, st: State, key, val):
+    """Well-formedness of one havoc'd heap cell (the object holding it is allocated)."""
+    al = E.alloc(st)
+    if key[0] == "fld" and ty.is_reflike(key[3]) and key[3].kind != "fn":
+        st.assume(z3.Or(val == ty.null, z3.Select(al, val)))
+    if key[0] in ("list", "dk") and ty.is_reflike(key[1]):
+        so = seq_ops(key[1])
+        x = fresh("x", ty.RefSort)
+        st.assume(z3.ForAll([x], z3.Implies(so.Mem(val, x), z3.And(x != ty.null, z3.Select(al, x))), patterns=[so.Mem(val, x)]))
 
 
 def wf_keys(E: Engine, st: State, keys):
@@ -137,6 +152,8 @@ def wf_keys(E: Engine, st: State, keys):
     al = E.alloc(st)
     for key in keys:
         arr = E.h(st, key)
+        if z3.is_app_of(arr, z3.Z3_OP_STORE):
+            continue   # object-precise havoc: handled cell by cell (wf_value)
         if key[0] == "fld" and ty.is_reflike(key[3]):
             r = fresh("r", ty.RefSort)
             st.assume(z3.ForAll([r], z3.Implies(z3.Select(al, r), z3.Or(z3.Select(arr, r) == ty.null, z3.Select(al, z3.Select(arr, r)))),
@@ -216,6 +233,7 @@ def fn_table(E: Engine):
 Engine.modset = modset
 Engine.havoc_modset = havoc_modset
 Engine.wf_keys = wf_keys
+Engine.wf_value = wf_value
 Engine.wf_after_havoc = wf_after_havoc
 Engine.loop_frame_assumption = loop_frame_assumption
 Engine.loop_frame_check = loop_frame_check
